@@ -20,6 +20,7 @@ pub mod c17;
 pub mod c18;
 pub mod c19;
 pub mod c20;
+pub mod history;
 pub mod util;
 
 pub fn run(ctx: &mut Ctx) -> Result<(), String> {
